@@ -5,7 +5,7 @@
 set -u
 D=$(readlink -f "$1"); ID=$2; DEMO=${3:-}; TIER=${4:-quick}
 SLOT=${EVAL_SLOT:-}
-W=/tmp/confirm-wt$SLOT
+W=${EVAL_WT:-/tmp/confirm-wt$SLOT}
 export CONFIRM_WT=$W
 export CARGO_NET_OFFLINE=true; unset RUSTFLAGS
 echo "== [3] (started in background) check $ID $TIER against the patched tree"
